@@ -182,6 +182,8 @@ class Gen:
         for k in keys:
             if rng.random() < 0.5:
                 self.var(k)
+                if rng.random() < 0.3:        # an override that is exactly zero is still an override
+                    self.vars[k] = 0 if self.mode == 'rat' else rng.choice([0.0, -0.0])
         return keys
 
     def klass(self, depth, q_ok=False):
@@ -263,7 +265,8 @@ class Gen:
             args = [self.arg(depth), self.arg(depth)]
             return self.new('RampedTemp', args, Q)
         if c == 'Radiolytic':
-            names = rng.choice([[''], [''], ['alpha'], ['alpha', 'beta']])
+            names = rng.choice([[''], ['alpha'], ['alpha', 'beta'], ['gamma', 'alpha'], ['beta', 'alpha'],
+                                ['gamma', 'alpha', 'beta'], ['neutron', 'gamma']])      # NOT only alphabetical orders
             self.var('density')
             for nm in names:
                 self.var('doserate' + ('' if nm == '' else '_' + nm))
@@ -592,7 +595,7 @@ class Real:
             if cl in self.tags:
                 tag = self.tags[cl]
             elif isinstance(o, RadiolyticBase):
-                tag = 'Radiolytic:' + ','.join(k[len('doserate'):].lstrip('_') for k in o.parameter_keys[1:])
+                tag = 'Radiolytic:' + ','.join(k[len('radiolytic_yield'):].lstrip('_') for k in o.argument_names)
             else:
                 tag = {'_AddExpr': 'Add', '_SubExpr': 'Sub', '_MulExpr': 'Mul', '_DivExpr': 'Div', '_PowExpr': 'Pow',
                        '_NegExpr': 'Neg'}.get(nm, nm)
@@ -691,7 +694,7 @@ class C16(Property):
     def generate(self, rng, n, tier):
         cases = []
         maxd = 3 if tier == 'quick' else 6
-        n_tree = int(n * 0.72)
+        n_tree = int(n * 0.66)
         for i in range(n_tree):
             mode = 'rat' if i % 2 == 0 else 'float'
             d = rng.randint(1, maxd)
@@ -710,12 +713,36 @@ class C16(Property):
         n_u = int(n * 0.07)
         for i in range(n_u):
             cases.append(self._units_case(rng, i))
+        for i in range(int(n * 0.03)):
+            cases.append(self._radiolytic_case(rng))
+        for i in range(int(n * 0.04)):
+            cases.append(self._override0_case(rng, i))
         n_ub = int(n * 0.05)
         for i in range(n_ub):
             cases.append(self._ubackend_case(rng, i))
         while len(cases) < n:
             cases.append(self._rxnrate_case(rng))
         return cases
+
+    def _radiolytic_case(self, rng):
+        """multi-dose-rate Radiolytic classes, names in ARBITRARY order, distinct yields and dose rates"""
+        pool = ['alpha', 'beta', 'gamma', 'neutron', 'x']
+        names = rng.sample(pool, rng.randint(2, 4))
+        return {'kind': 'radiolytic', 'names': names,
+                'g': [float('%.6g' % rng.uniform(1e-8, 9e-7)) for _ in names],
+                'doserate': [float('%.6g' % rng.uniform(0.01, 50)) for _ in names],
+                'density': float('%.6g' % rng.uniform(0.7, 1.3))}
+
+    def _override0_case(self, rng, i):
+        """named overrides at the boundary: exactly 0 / 0.0 / -0.0, a zero quantity, a symbolic zero, array-valued"""
+        return {'kind': 'override0',
+                'cls': ('arrhenius', 'ma_arrhenius', 'arrp', 'shiftedpoly', 'ma_fk')[i % 5],
+                'idx': rng.randint(0, 1),
+                'val': rng.choice(['int0', 'float0', 'negzero', 'array', 'array0', 'sym0', 'qty0', 'nonzero']),
+                'A': float('%.6g' % math.exp(rng.uniform(math.log(1e3), math.log(1e10)))),
+                'E': float('%.6g' % rng.uniform(500, 9000)), 'T': float('%.7g' % rng.uniform(200, 2000)),
+                'coef': [float('%.5g' % rng.uniform(-3, 3)) for _ in range(3)], 'Tref': float('%.5g' % rng.uniform(250, 400)),
+                'cA': float('%.6g' % math.exp(rng.uniform(-4, 1))), 'order': rng.randint(1, 2)}
 
     def _ubackend_case(self, rng, i):
         """unit-carrying parameters whose ratio is an UNSIMPLIFIED dimensionless / temperature unit (kJ vs J, cal vs J, mM vs M)
@@ -1100,6 +1127,128 @@ class C16(Property):
             return self._oracle_rxnrate(c) or self._oracle_mutable(c)
         if k == 'ubackend':
             return self._oracle_ubackend(c)
+        if k == 'radiolytic':
+            return self._oracle_radiolytic(c)
+        if k == 'override0':
+            return self._oracle_override0(c)
+        return None
+
+    def _oracle_radiolytic(self, c):
+        """defining formula (docstring of mk_Radiolytic / rates.py): rate = density * sum_i G_i * doserate_i, where G_i is the yield
+        for the dose rate of the SAME name -- list arguments, dict arguments, g_values(), every backend, with units"""
+        from chempy.kinetics.rates import mk_Radiolytic
+        from chempy.units import default_units as u, to_unitless
+        import numpy as np, sympy
+        names, g, dr, rho = c['names'], c['g'], c['doserate'], c['density']
+        want = rho * sum(gi * di for gi, di in zip(g, dr))
+        try:
+            Rad = mk_Radiolytic(*names)
+            variables = {'density': rho}
+            for nm, d in zip(names, dr):
+                variables['doserate_' + nm] = d
+            by_list = Rad(list(g))
+            by_dict = Rad({'radiolytic_yield_' + nm: gi for nm, gi in zip(names, g)})
+            for how, obj in (('list', by_list), ('dict', by_dict)):
+                for bn, be in (('math', math), ('numpy', np)):
+                    got = obj(variables, backend=be)
+                    if not close(float(got), want, 1e-12):
+                        return ('mk_Radiolytic%r(%s args %r)(%r, backend=%s) = %r, defining formula density*sum(G_i*doserate_i) = %r'
+                                % (tuple(names), how, g, variables, bn, float(got), want))
+                syms = {k: sympy.Symbol('v_' + k, positive=True) for k in variables}
+                sv = obj(syms, backend=sympy).subs({syms[k]: sympy.Float(v, 30) for k, v in variables.items()})
+                if not close(float(sv), want, 1e-12):
+                    return 'mk_Radiolytic%r (%s args), sympy then substituted: %r, defining formula %r' % (tuple(names), how, float(sv), want)
+                gv = obj.g_values(variables)
+                for nm, gi in zip(names, g):
+                    if 'doserate_' + nm not in gv or gv['doserate_' + nm] != gi:
+                        return 'mk_Radiolytic%r(%s).g_values() = %r: the yield of %s is %r' % (tuple(names), how, dict(gv), nm, gi)
+            vq = {'density': rho * u.kg / u.dm3}
+            for nm, d in zip(names, dr):
+                vq['doserate_' + nm] = d * u.Gy / u.s
+            got = to_unitless(Rad([gi * u.mol / u.J for gi in g])(vq), u.molar / u.s)
+            if not close(float(got), want, 1e-9):
+                return 'mk_Radiolytic%r with units: %r, defining formula %r' % (tuple(names), float(got), want)
+        except Exception as e:
+            return 'radiolytic check raised %s: %s' % (exc_name(e), str(e)[:120])
+        return None
+
+    def _oracle_override0(self, c):
+        """a named override replaces exactly that argument -- also when its value is 0, 0.0, -0.0, a zero quantity, a symbolic zero or
+        an array (arrays evaluate element-wise); judged against the closed formula with that argument replaced"""
+        from chempy import Reaction
+        from chempy.kinetics.rates import MassAction, Arrhenius
+        from chempy.kinetics.arrhenius import ArrheniusParam
+        from chempy.util._expr import create_Poly
+        from chempy.units import default_units as u, to_unitless
+        import numpy as np, sympy
+        A, E, T, idx, val, cls = c['A'], c['E'], c['T'], c['idx'], c['val'], c['cls']
+        order = c['order']
+        rxn = Reaction({'A': order}, {'P': 1})
+        prod = c['cA'] ** order
+        be, post = math, float
+        # the override value and its plain-number meaning (scalar or array)
+        if val == 'int0':
+            ov, num = 0, 0.0
+        elif val == 'float0':
+            ov, num = 0.0, 0.0
+        elif val == 'negzero':
+            ov, num = -0.0, 0.0
+        elif val == 'nonzero':
+            ov, num = 1.5, 1.5
+        elif val in ('array', 'array0'):
+            num = np.array([0.0, 2.0, 0.5]) if val == 'array0' else np.array([1.0, 2.0, 0.5])
+            ov, be, post = num.copy(), np, (lambda x: np.asarray(getattr(x, 'magnitude', x), dtype=float))
+        elif val == 'sym0':
+            ov, num, be, post = sympy.Float(0), 0.0, sympy, (lambda x: float(x))
+        else:          # 'qty0': a zero quantity of the argument's own unit
+            ov, num = None, 0.0
+        try:
+            variables = {'temperature': T, 'A': c['cA']}
+            if cls in ('arrhenius', 'ma_arrhenius', 'arrp'):
+                if cls == 'arrp':
+                    ratex = ArrheniusParam(A, E * R_GAS).as_RateExpr(unique_keys=('k0', 'k1'))
+                elif cls == 'ma_arrhenius':
+                    ratex = MassAction(Arrhenius([A, E], unique_keys=('k0', 'k1')))
+                else:
+                    ratex = Arrhenius([A, E], unique_keys=('k0', 'k1'))
+                if val == 'qty0':
+                    ov = 0 * u.K if idx == 1 else 0.0 / u.s
+                    variables['temperature'] = T * u.K
+                    variables['A'] = c['cA'] * u.molar
+                a2, e2 = (num, E) if idx == 0 else (A, num)
+                want = a2 * np.exp(-e2 / T) * (prod if cls != 'arrhenius' else 1.0)
+                variables['k%d' % idx] = ov
+                got = ratex(variables, backend=be, reaction=rxn) if cls != 'arrhenius' else ratex(variables, backend=be)
+                if val == 'qty0':
+                    unit = (u.molar ** order if cls != 'arrhenius' else 1) * (1 / u.s if idx == 0 else 1)
+                    got = to_unitless(got, unit)
+            elif cls == 'shiftedpoly':
+                SPoly = create_Poly('temperature', shift='Tref')
+                p = SPoly([c['Tref']] + c['coef'], unique_keys=('Tref_key', 'c0_key'))
+                if val == 'qty0':
+                    ov = 0.0       # (a polynomial of a quantity is not unit-consistent: plain zero)
+                tref, c0 = (num, c['coef'][0]) if idx == 0 else (c['Tref'], num)
+                x = T - tref
+                want = c0 + c['coef'][1] * x + c['coef'][2] * x ** 2
+                variables['Tref_key' if idx == 0 else 'c0_key'] = ov
+                got = p(variables, backend=be)
+            else:              # 'ma_fk': key-only construction, the rate constant comes from the variables
+                ratex = MassAction.fk('kf')
+                if val == 'qty0':
+                    ov = 0.0 * u.molar ** (1 - order) / u.s
+                    variables['A'] = c['cA'] * u.molar
+                want = num * prod
+                variables['kf'] = ov
+                got = ratex(variables, backend=be, reaction=rxn)
+                if val == 'qty0':
+                    got = to_unitless(got, u.molar / u.s)
+            got = post(got)
+            g1, w1 = np.atleast_1d(np.asarray(got, dtype=float)), np.atleast_1d(np.asarray(want, dtype=float)) * np.ones_like(np.atleast_1d(np.asarray(got, dtype=float)))
+            if g1.shape != w1.shape or not all(close(x, y, 1e-9, 1e-300) for x, y in zip(g1, w1)):
+                return ('override %s = %r of argument %d of %s: evaluates to %r, the formula with that argument replaced gives %r'
+                        % (val, ov, idx, cls, g1.tolist(), w1.tolist()))
+        except Exception as e:
+            return 'override %s of argument %d of %s raised %s: %s' % (val, idx, cls, exc_name(e), str(e)[:100])
         return None
 
     def _oracle_ubackend(self, c):
@@ -1569,6 +1718,10 @@ class C16(Property):
             return 'units:' + c['tmpl']
         if k == 'ubackend':
             return 'ubackend:%s:%s' % (c['tmpl'], c['energy_unit'])
+        if k == 'radiolytic':
+            return 'radiolytic:%d-names:%s' % (len(c['names']), 'sorted' if c['names'] == sorted(c['names']) else 'unsorted')
+        if k == 'override0':
+            return 'override0:%s:%s' % (c['cls'], c['val'])
         return 'rxnrate:' + c.get('which', '?')
 
     def extra_search(self, rng, tier, hints):
